@@ -72,6 +72,9 @@ pub enum WStep {
     /// ttl 0: none (-1), 1: an hour, 2: two seconds (expired by the time anything is observed across a restart)
     CacheSet { node: u64, k: u8, ttl: u8 },
     CacheDel { node: u64, k: u8 },
+    /// a batch import of `n` MCP tool definitions in one request (UpdateToolSpecList, what an OpenAPI / zip import sends):
+    /// the definitions tool0..tool2 in turn, each with a new version
+    McpToolList { node: u64, n: u8 },
 }
 
 /// namespace ids: two of the four are tenants that configurations are published in, so that user-created namespaces hold
@@ -131,7 +134,9 @@ pub fn gen_mcp_step(rng: &mut Rng, nodes: u64) -> WStep {
         return if rng.chance(0.75) { WStep::CacheSet { node, k: rng.below(4) as u8, ttl: rng.below(3) as u8 } } else { WStep::CacheDel { node, k: rng.below(4) as u8 } };
     }
     let r = rng.below(100);
-    if r < 40 {
+    if r < 8 {
+        WStep::McpToolList { node, n: *rng.pick(&[2u8, 5, 33, 40]) }
+    } else if r < 40 {
         WStep::McpTool { node, k: rng.below(2) as u8 }
     } else if r < 85 {
         WStep::McpServer { node, id: rng.below(2) as u8, k: rng.below(2) as u8, old: rng.chance(0.4), publish: rng.chance(0.5) }
@@ -545,6 +550,32 @@ pub async fn do_step(n: &NodeH, st: &WStep, m: &mut WModel, timeout_ms: u64) -> 
                 Some(Err(e)) => OpOutcome::Err(e.to_string()),
             }
         }
+        WStep::McpToolList { n: cnt, .. } => {
+            let mut list = vec![];
+            let mut vers: Vec<(u8, u64)> = vec![];
+            for j in 0..*cnt {
+                m.uniq += 1;
+                let version = m.uniq;
+                let k = j % 3;
+                let key = mcp_tool_key(k);
+                list.push(ToolSpecParam { namespace: key.namespace, group: key.group, tool_name: key.tool_name, parameters: ToolFunctionValue { name: Arc::new(format!("tool{}", k)), description: Arc::new(format!("definition v{} (list)", version)), input_schema: Box::new(JsonSchema::new_object()) }, version, update_time: 1_700_000_000_000 + version as i64, op_user: Some(Arc::new("sim".to_string())) });
+                vers.push((k, version));
+            }
+            sim::count("probe.mcp_op", 1);
+            if *cnt > 32 {
+                sim::count("probe.mcp_tool_list_longer_than_32", 1);
+            }
+            match within(timeout_ms, n.app.raft_request_route.request(ClientRequest::McpReq { req: McpManagerRaftReq::UpdateToolSpecList(list) })).await {
+                None => OpOutcome::Timeout,
+                Some(Ok(_)) => {
+                    for (k, v) in vers {
+                        m.mcp_tool_versions.entry(k).or_default().push(v);
+                    }
+                    OpOutcome::Ok
+                }
+                Some(Err(e)) => OpOutcome::Err(e.to_string()),
+            }
+        }
         WStep::McpTool { k, .. } => {
             m.uniq += 1;
             let version = m.uniq;
@@ -591,7 +622,8 @@ pub async fn do_step(n: &NodeH, st: &WStep, m: &mut WModel, timeout_ms: u64) -> 
             let exists = m.mcp_servers.contains(&(*id % 3));
             let p = McpServerParam {
                 id: sid,
-                unique_key: Some(Arc::new(format!("srv-key-{}", id % 3))),
+                // (the console checks the key for uniqueness on create only: an update may give a server the key of another one)
+                unique_key: Some(Arc::new(if exists { format!("srv-key-{}", k % 3) } else { format!("srv-key-{}", id % 3) })),
                 value_id: m.uniq * 10,
                 tools: vec![McpSimpleTool { tool_name: Arc::new(format!("tool{}", k % 3)), tool_key: mcp_tool_key(*k), tool_version, route_rule: ToolRouteRule::default() }],
                 op_user: Arc::new("sim".to_string()),
@@ -635,7 +667,7 @@ pub async fn do_step(n: &NodeH, st: &WStep, m: &mut WModel, timeout_ms: u64) -> 
 
 pub fn step_node(st: &WStep) -> u64 {
     match st {
-        WStep::CfgSet { node, .. } | WStep::CfgDel { node, .. } | WStep::NsSet { node, .. } | WStep::NsDel { node, .. } | WStep::UserAdd { node, .. } | WStep::UserUpd { node, .. } | WStep::UserDel { node, .. } | WStep::SeqNext { node, .. } | WStep::SeqRange { node, .. } | WStep::SeqBurst { node, .. } | WStep::PInstReg { node, .. } | WStep::PInstDel { node, .. } | WStep::Restart { node } | WStep::KillRestart { node } | WStep::Import { node, .. } | WStep::PlantSnapshot { node, .. } | WStep::McpTool { node, .. } | WStep::McpToolDel { node, .. } | WStep::McpServer { node, .. } | WStep::McpServerDel { node, .. } | WStep::CacheSet { node, .. } | WStep::CacheDel { node, .. } => *node,
+        WStep::CfgSet { node, .. } | WStep::CfgDel { node, .. } | WStep::NsSet { node, .. } | WStep::NsDel { node, .. } | WStep::UserAdd { node, .. } | WStep::UserUpd { node, .. } | WStep::UserDel { node, .. } | WStep::SeqNext { node, .. } | WStep::SeqRange { node, .. } | WStep::SeqBurst { node, .. } | WStep::PInstReg { node, .. } | WStep::PInstDel { node, .. } | WStep::Restart { node } | WStep::KillRestart { node } | WStep::Import { node, .. } | WStep::PlantSnapshot { node, .. } | WStep::McpTool { node, .. } | WStep::McpToolDel { node, .. } | WStep::McpServer { node, .. } | WStep::McpServerDel { node, .. } | WStep::CacheSet { node, .. } | WStep::CacheDel { node, .. } | WStep::McpToolList { node, .. } => *node,
         WStep::Advance { .. } | WStep::LeaderHandover { .. } => 0,
     }
 }
